@@ -251,7 +251,9 @@ ADDED2 = {
     'C09': ' Further: positions written by martinize2 (inner residues, shipped mapping files read with an own parser, element masses; also with '
            'debug dumps taken before the mapping); new-style mapping text with explicit weights 0 / 2 / 3.',
     'C10': ' Further: martinize2 -bonds-from / -bonds-fudge through -write-graph.',
-    'C11': ' Further: an input with alternate conformations A/B in either order.',
+    'C11': ' Further: an input with alternate conformations A/B in either order; -bonds-from name and -bonds-fudge 1.0 (under -bonds-from name '
+           'without the renamings: there the names are the connectivity). Thorough: every option set on six inputs, default and -elastic on '
+           'the other windows, pairs of deviations on four inputs (about 15 000 program runs, 17 hash seeds).',
     'C12': ' Further: System.copy; subgraph with repeated keys; every instance attribute and the sharing between copy and source in the abstract state.',
     'C13': ' Further: contradiction faults with every other explicit order on an atom mentioned once; a .mapping with extra nodes, two identifiers '
            'and bare names.',
